@@ -62,7 +62,7 @@ func PlanFor(prop, tier string) (*Plan, error) {
 		p.Monitors = func() []Monitor { return []Monitor{NewC12()} }
 		p.Rule = "cancel attempted by the auctioneer, another auctioneer and a bidder on every auction in every status at every instant relative to its start (including auctions created already open); decision compared with signer = auctioneer and status = waiting; effects checked on acceptance; non-trivial = distinct (signer class, status, position to start, state) decisions"
 	case "C09":
-		p.Scenarios = append(vestingScenarios(tier), S1a(tier, true), S5big())
+		p.Scenarios = append(vestingScenarios(tier), S1a(tier, true), S5big(), S12(tier), S3e(tier))
 		p.Monitors = func() []Monitor { return []Monitor{NewC09()} }
 		p.Rule = "schedules x proceeds x block patterns: fixed-price auction at price 1 so that one or two paying-denominated bids produce any proceeds in the grid; every subset of release instants hit exactly / skipped / overshot; the split at settlement is compared with floor(proceeds x weight) / remainder-to-last in exact rationals and every block with the instalments due and unreleased at its start; non-trivial = distinct (proceeds, weights) splits and distinct (state, due set, time) releases"
 	case "C11":
